@@ -41,15 +41,16 @@ type mCall struct {
 }
 
 type mLogStore struct {
-	low, high uint64 // InmemStore.lowIndex / highIndex
-	w         int    // window size
-	present   *vWin64
-	term      *vWin64
-	typ       *vWin64
-	data      *vWin64 // blob cell (content id + nil flag)
-	ext       *vWin64
-	failOn    bool
-	calls     []mCall
+	low, high  uint64 // InmemStore.lowIndex / highIndex
+	w          int    // window size
+	present    *vWin64
+	term       *vWin64
+	typ        *vWin64
+	data       *vWin64 // blob cell (content id + nil flag)
+	ext        *vWin64
+	failOn     bool
+	writesOnly bool // with failOn: only StoreLogs/DeleteRange may fail
+	calls      []mCall
 }
 
 // vNewLogStore creates a store with arbitrary content in the window
@@ -125,10 +126,12 @@ func vEmptyLogStore(tag string, w int) *mLogStore {
 
 func (s *mLogStore) clone() *mLogStore {
 	return &mLogStore{low: s.low, high: s.high, w: s.w, present: s.present.Clone(), term: s.term.Clone(),
-		typ: s.typ.Clone(), data: s.data.Clone(), ext: s.ext.Clone(), failOn: s.failOn}
+		typ: s.typ.Clone(), data: s.data.Clone(), ext: s.ext.Clone(), failOn: s.failOn, writesOnly: s.writesOnly}
 }
 
-func (s *mLogStore) note(op int, a, b uint64, ok bool) { s.calls = append(s.calls, mCall{op, a, b, ok}) }
+func (s *mLogStore) note(op int, a, b uint64, ok bool) {
+	s.calls = append(s.calls, mCall{op, a, b, ok})
+}
 
 func (s *mLogStore) has(idx uint64) bool { return s.present.Get(idx) == 1 }
 
@@ -144,7 +147,7 @@ func (s *mLogStore) contiguous(from, to uint64) bool {
 }
 
 func (s *mLogStore) FirstIndex() (uint64, error) {
-	if s.failOn && vFail("FirstIndex") {
+	if s.failOn && !s.writesOnly && vFail("FirstIndex") {
 		s.note(opFirstIndex, 0, 0, false)
 		return 0, errInjected
 	}
@@ -153,7 +156,7 @@ func (s *mLogStore) FirstIndex() (uint64, error) {
 }
 
 func (s *mLogStore) LastIndex() (uint64, error) {
-	if s.failOn && vFail("LastIndex") {
+	if s.failOn && !s.writesOnly && vFail("LastIndex") {
 		s.note(opLastIndex, 0, 0, false)
 		return 0, errInjected
 	}
@@ -162,7 +165,7 @@ func (s *mLogStore) LastIndex() (uint64, error) {
 }
 
 func (s *mLogStore) GetLog(index uint64, log *Log) error {
-	if s.failOn && vFail("GetLog") {
+	if s.failOn && !s.writesOnly && vFail("GetLog") {
 		s.note(opGetLog, index, 0, false)
 		return errInjected
 	}
